@@ -222,7 +222,7 @@ bool c16SimplexOp(std::vector<std::string> const& t, std::string& out){
 		return true;
 	}
 	if(op != "xsmo" && op != "xkillex" && op != "xdeactvar" && op != "xshrink" && op != "xunshrink" && op != "xadddelta"
-		&& op != "xlabel" && op != "xselect" && op != "xkkt" && op != "xsolve" && op != "xbiasupd") return false;
+		&& op != "xlabel" && op != "xselect" && op != "xkkt" && op != "xsolve" && op != "xbiasupd" && op != "xadddeltas") return false;
 	if(!S.prob || !parseInts(t, 1, a)){ out = "bad-op"; return true; }
 	Probe& p = *S.prob;
 	std::string pre, stopOrc;
@@ -255,6 +255,12 @@ bool c16SimplexOp(std::vector<std::string> const& t, std::string& out){
 					if(before[k].vs < S.C && before[k].g > 0.0){ stopOrc += " !oracle shrink-deactivated-violator"; break; }
 				}
 		pre = std::string("ret=") + (r ? "1 " : "0 ");
+	}else if(op == "xadddeltas"){
+		// addDeltaLinear with dyadic entries a[1+k] / 2^a[0] (reaches states next to the snapping thresholds of updateVarsum)
+		if(a.size() != 1 + S.n * S.P || a[0] < 0 || a[0] > 1000){ out = "bad-op"; return true; }
+		RealMatrix d(S.n, S.P);
+		for(std::size_t i = 0; i != S.n; ++i) for(std::size_t q = 0; q != S.P; ++q) d(i,q) = shiftVal(a[1 + i*S.P + q], a[0]);
+		p.addDeltaLinear(d);
 	}else if(op == "xadddelta"){
 		if(a.size() != S.n * S.P){ out = "bad-op"; return true; }
 		RealMatrix d(S.n, S.P);
